@@ -7,6 +7,19 @@ Thread `i` plays member `i` of `merge!`: greeting, data, at most one terminal; e
 `Merge.step` (`pstep`).  Proof: one global invariant (`Inv`) relating the shared counters `startCount` / `endCount` and the
 observation counters to the NUMBER of threads at certain program points (Owicki–Gries with counting, as in `Par/TakeAbs.lean`),
 proved directly on `PSys` (program counter of a thread = its `frame`).
+
+Results (all for every member count `n`, all scripts, every schedule):
+* `merge_par_safe`: `greets ≤ 1`, `terms ≤ 1`, never both a `Terminate` and an `Error`, `errs ≤` number of failing members,
+  no panic; `merge_par_safe_one` / `merge_par_safe_nofail`: with at most one failing member `terms + errs ≤ 1`.
+* `merge_par_order` (nobody fails): `Terminate` only when no data delivery is in progress, nothing after it, nobody disposed.
+* `merge_par_data`, `merge_par_data_done` (nobody fails): no datum lost or duplicated (count form).
+* FALSE, with machine-checked schedules: `terms + errs ≤ 1` when two members fail (`merge_par_two_errors`: two `Error`s);
+  "the sink is greeted before anything else" (`merge_par_data_before_greet`: `Data` before the greeting);
+  `afterTerm = 0` with one failing member (`merge_par_data_after_error`).
+
+The invariant's counting predicates on threads: `atG2` / `atT2` (holder of the ticket `startCount = 1` / `endCount = n`, before
+its call), `preT1` (will still increment `endCount`), `mayErr` (will still send `Error`), `liveR` (has not incremented
+`endCount` and still has work to do before), `inData` (inside `sink(Data)`); `pend` counts data not yet passed on.
 -/
 namespace Cb.Merge
 open List
@@ -145,10 +158,39 @@ def liveR {α} (th : Th α) : Bool := !th.script.isEmpty || fLive th.frame
 /-- inside a data delivery to the sink -/
 def inData {α} (th : Th α) : Bool := fData th.frame
 
+def isDataIn {α} : In α → Bool | .srcDown _ (.data _) => true | _ => false
+@[simp] theorem isDataIn_greet {α} (i : Nat) : isDataIn (α := α) (.srcGreet i) = false := rfl
+@[simp] theorem isDataIn_data {α} (i : Nat) (a : α) : isDataIn (.srcDown i (.data a)) = true := rfl
+@[simp] theorem isDataIn_term {α} (i : Nat) : isDataIn (α := α) (.srcDown i .term) = false := rfl
+@[simp] theorem isDataIn_err {α} (i e : Nat) : isDataIn (α := α) (.srcDown i (.err e)) = false := rfl
+/-- number of data deliveries in a script -/
+def nData {α} : List (In α) → Nat
+  | [] => 0
+  | x :: r => (if isDataIn x then 1 else 0) + nData r
+def fPend {α} : Fr α → Nat | some (.run (.data _)) => 1 | _ => 0
+/-- data handed (or still to be handed) to merge by this thread and not yet passed on to the sink -/
+def pend {α} (th : Th α) : Nat := nData th.script + fPend th.frame
+
+/-- sum of `f` over the threads (a wrapper that `simp` does not look into) -/
+def tot {α} (f : α → Nat) (l : List α) : Nat := (l.map f).sum
+
+theorem tot_set {α} (f : α → Nat) (l : List α) (i : Nat) (h : i < l.length) (x : α) :
+    tot f (l.set i x) + f l[i] = tot f l + f x := by
+  unfold tot
+  induction l generalizing i with
+  | nil => simp at h
+  | cons a l ih =>
+    cases i with
+    | zero => simp; omega
+    | succ i =>
+      have := ih i (by simpa using h)
+      simp only [List.set_cons_succ, List.map_cons, List.sum_cons, List.getElem_cons_succ]
+      omega
+
 /-- number of threads satisfying `p` (a wrapper that `simp` does not look into) -/
 def cnt {α} (p : α → Bool) (l : List α) : Nat := l.countP p
 
-structure Inv {α} (n E0 : Nat) (s : PSys St (Loc α) α α) : Prop where
+structure Inv {α} (n E0 D0 : Nat) (s : PSys St (Loc α) α α) : Prop where
   wf : ∀ th ∈ s.threads, okThread th
   pan : s.obs.panics = 0
   g1 : s.obs.greets + cnt atG2 s.threads ≤ 1
@@ -160,6 +202,7 @@ structure Inv {α} (n E0 : Nat) (s : PSys St (Loc α) α α) : Prop where
   r : s.st.endCount + cnt liveR s.threads ≤ n
   f : s.obs.inFlight = cnt inData s.threads
   o : E0 = 0 → s.st.ended = false ∧ s.obs.upTerms = 0 ∧ s.obs.afterTerm = 0 ∧ s.obs.termWhileData = false
+  d : E0 = 0 → s.obs.disposed = [] ∧ s.obs.datas.length + tot pend s.threads = D0
 
 theorem cnt_set {α} (p : α → Bool) (l : List α) (i : Nat) (h : i < l.length) (x : α) :
     cnt p (l.set i x) + (if p l[i] then 1 else 0) = cnt p l + (if p x then 1 else 0) ∧
@@ -208,11 +251,38 @@ theorem inData_le_liveR {α} (l : List (Th α)) : cnt inData l ≤ cnt liveR l :
     | run l => simp [fData] at h
     | wait o l => simp_all [fData, fLive]
 
+/-! ## One step of one thread preserves the invariant
+
+`prep` unfolds `pstep` for the thread `t` whose state is given by `hth`, instantiates the counting lemmas for that thread
+(`e1`…`e7`, functions of the thread's new state) and takes the invariant apart; `leaf x` evaluates them for the new state `x`;
+`fin` re-establishes the invariant field by field. -/
+
+set_option hygiene false in
+macro "prep" : tactic => `(tactic| (
+  unfold pstep at hs
+  obtain ⟨hlt, hget⟩ := List.getElem?_eq_some_iff.mp hth
+  simp only [hth] at hs
+  have hok := hi.wf _ (hget ▸ List.getElem_mem hlt)
+  have e1 := fun x => cnt_set atG2 s.threads t hlt x
+  have e2 := fun x => cnt_set atT2 s.threads t hlt x
+  have e3 := fun x => cnt_set preT1 s.threads t hlt x
+  have e4 := fun x => cnt_set mayErr s.threads t hlt x
+  have e5 := fun x => cnt_set liveR s.threads t hlt x
+  have e6 := fun x => cnt_set inData s.threads t hlt x
+  have e7 := fun x => tot_set pend s.threads t hlt x
+  simp only [hget] at e1 e2 e3 e4 e5 e6 e7
+  obtain ⟨hwf, hpan, hg1, hg0, ht1, ht0, hx, he, hr, hf, ho, hd0⟩ := hi
+  clear hth hget
+  have hdl := inData_le_liveR s.threads
+  have hO : E0 = 0 → s.st.ended = false ∧ s.obs.upTerms = 0 ∧ s.obs.afterTerm = 0 ∧ s.obs.termWhileData = false ∧
+      s.obs.errs = 0 ∧ cnt mayErr s.threads = 0 := fun h => by
+    obtain ⟨a, b, c, d⟩ := ho h; exact ⟨a, b, c, d, by omega, by omega⟩))
+
 set_option hygiene false in
 macro "leaf " x:term : tactic => `(tactic| (
-  have e1 := e1 $x; have e2 := e2 $x; have e3 := e3 $x; have e4 := e4 $x; have e5 := e5 $x; have e6 := e6 $x
-  simp [atG2, atT2, preT1, mayErr, liveR, inData, fG2, fT2, fPreT1, fErr, fLive, fData, hasTerm, hasErr]
-    at e1 e2 e3 e4 e5 e6))
+  have e1 := e1 $x; have e2 := e2 $x; have e3 := e3 $x; have e4 := e4 $x; have e5 := e5 $x; have e6 := e6 $x; have e7 := e7 $x
+  simp [atG2, atT2, preT1, mayErr, liveR, inData, fG2, fT2, fPreT1, fErr, fLive, fData, hasTerm, hasErr, pend, nData, fPend]
+    at e1 e2 e3 e4 e5 e6 e7))
 
 set_option hygiene false in
 macro "wfset" : tactic => `(tactic| (
@@ -221,228 +291,271 @@ macro "wfset" : tactic => `(tactic| (
 
 set_option hygiene false in
 macro "fin" "[" ts:Lean.Parser.Tactic.simpLemma,* "]" : tactic => `(tactic| (
-  constructor <;> simp only [$ts,*, if_true, if_false, Bool.false_eq_true, machine, enter, Obs.onOut, onRet_eq, sinkMsg_greets, sinkMsg_datas, sinkMsg_terms, sinkMsg_errs,
-      sinkMsg_upTerms, sinkMsg_inFlight, sinkMsg_twd, sinkMsg_panics, sinkMsg_disposed] <;> first
+  constructor <;> simp only [$ts,*, if_true, if_false, Bool.false_eq_true, machine, enter, Obs.onOut, onRet_eq, sinkMsg_greets,
+      sinkMsg_datas, sinkMsg_terms, sinkMsg_errs, sinkMsg_upTerms, sinkMsg_inFlight, sinkMsg_twd, sinkMsg_panics,
+      sinkMsg_disposed] <;> first
     | omega
     | wfset
     | assumption
-    | (simpa using ho)))
+    | (simpa using ho)
+    | (intro hE; obtain ⟨d1, d2⟩ := hd0 hE; exact ⟨d1, by omega⟩)))
 
-set_option linter.unusedSimpArgs false in
-theorem inv_pstep {α} (n E0 : Nat) (s s' : PSys St (Loc α) α α) (t : Nat) (hi : Inv n E0 s)
-    (hs : pstep (machine α n) s t = some s') : Inv n E0 s' := by
-  unfold pstep at hs
+section steps
+variable {α : Type} {n E0 D0 : Nat} {s s' : PSys St (Loc α) α α} {t : Nat} {script : List (In α)}
+set_option linter.unusedSimpArgs false
+
+/-- the thread starts its next delivery (or stops because its member has been disposed) -/
+theorem inv_start (hi : Inv n E0 D0 s) (hth : s.threads[t]? = some ⟨script, none⟩)
+    (hs : pstep (machine α n) s t = some s') : Inv n E0 D0 s' := by
+  prep
+  cases script with
+  | nil => simp at hs
+  | cons i rest =>
+    simp only [] at hs
+    split at hs
+    · cases hs
+      leaf ⟨[], none⟩
+      have hE0 : E0 ≠ 0 := fun h => by
+        have := (hd0 h).1
+        simp_all
+      fin [if_true]
+    · cases hs
+      cases i with
+      | subscribe k => simp [okThread, okScript] at hok
+      | sinkUp k u => simp [okThread, okScript] at hok
+      | srcGreet i =>
+        leaf ⟨rest, some (.run (.g0 i))⟩
+        fin [if_true]
+      | srcDown i d =>
+        cases d with
+        | data a =>
+          leaf ⟨rest, some (.run (.data a))⟩
+          fin [if_true]
+        | term =>
+          obtain rfl : rest = [] := by simpa [okThread, okScript, okFrame] using hok
+          leaf ⟨[], some (.run (.t0 i))⟩
+          fin [if_true]
+        | err e =>
+          obtain rfl : rest = [] := by simpa [okThread, okScript, okFrame] using hok
+          leaf ⟨[], some (.run (.e0 i e))⟩
+          fin [if_true]
+
+/-- a call to the environment returns -/
+theorem inv_ret {o : Out α} {l : Loc α} (hi : Inv n E0 D0 s) (hth : s.threads[t]? = some ⟨script, some (.wait o l)⟩)
+    (hs : pstep (machine α n) s t = some s') : Inv n E0 D0 s' := by
+  prep
+  cases hs
+  cases l
+  all_goals try (exfalso; simp [okThread, okFrame, okWait] at hok; done)
+  · -- continuation `done`
+    leaf ⟨script, some (.run .done)⟩
+    by_cases hd : isDataOut o = true
+    · simp [hd] at e5 e6
+      fin [hd]
+    · simp [hd] at e5 e6
+      fin [hd]
+  · -- continuation `eLoop`
+    rename_i i j e
+    obtain rfl : script = [] := by simp [okThread, okFrame, okWait] at hok; exact hok.2
+    leaf ⟨[], some (.run (.eLoop i j e))⟩
+    by_cases hd : isDataOut o = true
+    · simp [hd] at e5 e6
+      fin [hd]
+    · simp [hd] at e5 e6
+      fin [hd]
+
+theorem inv_done (hi : Inv n E0 D0 s) (hth : s.threads[t]? = some ⟨script, some (.run .done)⟩)
+    (hs : pstep (machine α n) s t = some s') : Inv n E0 D0 s' := by
+  prep
+  simp [machine, step] at hs
+  cases hs
+  leaf ⟨script, none⟩
+  fin [if_true]
+
+theorem inv_g0 {i : Nat} (hi : Inv n E0 D0 s) (hth : s.threads[t]? = some ⟨script, some (.run (.g0 i))⟩)
+    (hs : pstep (machine α n) s t = some s') : Inv n E0 D0 s' := by
+  prep
+  simp only [machine, step, Bool.true_and] at hs
+  by_cases hen : s.st.ended = true
+  · rw [if_pos hen] at hs
+    cases hs
+    leaf ⟨script, some (.wait (.srcUp i .term) .done)⟩
+    have hE0 : E0 ≠ 0 := fun h => by simp [(hO h).1] at hen
+    fin [if_true]
+  · rw [if_neg hen] at hs
+    cases hs
+    leaf ⟨script, some (.run (.g1 i))⟩
+    fin [if_true]
+
+theorem inv_g1 {i : Nat} (hi : Inv n E0 D0 s) (hth : s.threads[t]? = some ⟨script, some (.run (.g1 i))⟩)
+    (hs : pstep (machine α n) s t = some s') : Inv n E0 D0 s' := by
+  prep
+  simp only [machine, step] at hs
+  cases hs
+  by_cases h0 : s.st.startCount = 0
+  · have : (s.st.startCount + 1 == 1) = true := by simp [h0]
+    simp only [this, if_true]
+    leaf ⟨script, some (.run .g2)⟩
+    fin [if_true]
+  · have : (s.st.startCount + 1 == 1) = false := by simp [h0]
+    simp only [this]
+    leaf ⟨script, some (.run .done)⟩
+    fin [if_true]
+
+set_option hygiene false in
+macro "callfin" : tactic => `(tactic| (
+  constructor <;> simp only [Obs.onOut, sinkMsg_greets, sinkMsg_datas, sinkMsg_terms, sinkMsg_errs,
+    sinkMsg_upTerms, sinkMsg_inFlight, sinkMsg_twd, sinkMsg_panics, sinkMsg_disposed]))
+
+theorem inv_g2 (hi : Inv n E0 D0 s) (hth : s.threads[t]? = some ⟨script, some (.run .g2)⟩)
+    (hs : pstep (machine α n) s t = some s') : Inv n E0 D0 s' := by
+  prep
+  simp only [machine, step] at hs
+  cases hs
+  leaf ⟨script, some (.wait (.greet 0) .done)⟩
+  have hat : E0 = 0 → s.obs.sinkMsg.afterTerm = 0 := fun h => by
+    rw [sinkMsg_afterTerm _ (by omega) (hO h).2.2.2.2.1]; exact (hO h).2.2.1
+  callfin
+  case o => exact fun h => ⟨(ho h).1, (ho h).2.1, hat h, (ho h).2.2.2⟩
+  case d => exact fun h => ⟨(hd0 h).1, by have := (hd0 h).2; omega⟩
+  all_goals first
+    | omega
+    | wfset
+    | assumption
+
+theorem inv_data {a : α} (hi : Inv n E0 D0 s) (hth : s.threads[t]? = some ⟨script, some (.run (.data a))⟩)
+    (hs : pstep (machine α n) s t = some s') : Inv n E0 D0 s' := by
+  prep
+  simp only [machine, step] at hs
+  cases hs
+  leaf ⟨script, some (.wait (.down 0 (.data a)) .done)⟩
+  have hat : E0 = 0 → s.obs.sinkMsg.afterTerm = 0 := fun h => by
+    rw [sinkMsg_afterTerm _ (by omega) (hO h).2.2.2.2.1]; exact (hO h).2.2.1
+  callfin
+  case o => exact fun h => ⟨(ho h).1, (ho h).2.1, hat h, (ho h).2.2.2⟩
+  case d =>
+    refine fun h => ⟨(hd0 h).1, ?_⟩
+    have := (hd0 h).2
+    simp only [List.length_append, List.length_singleton]; omega
+  all_goals first
+    | omega
+    | wfset
+    | assumption
+
+theorem inv_t0 {i : Nat} (hi : Inv n E0 D0 s) (hth : s.threads[t]? = some ⟨script, some (.run (.t0 i))⟩)
+    (hs : pstep (machine α n) s t = some s') : Inv n E0 D0 s' := by
+  prep
+  simp only [machine, step] at hs
+  cases hs
+  obtain rfl : script = [] := by simp [okThread, okFrame, okLoc] at hok; exact hok.2
+  leaf ⟨[], some (.run .t1)⟩
+  fin [if_true]
+
+theorem inv_t1 (hi : Inv n E0 D0 s) (hth : s.threads[t]? = some ⟨script, some (.run .t1)⟩)
+    (hs : pstep (machine α n) s t = some s') : Inv n E0 D0 s' := by
+  prep
+  simp only [machine, step] at hs
+  cases hs
+  obtain rfl : script = [] := by simp [okThread, okFrame, okLoc] at hok; exact hok.2
+  by_cases h0 : s.st.endCount + 1 = n
+  · have : (s.st.endCount + 1 == n) = true := by simp [h0]
+    simp only [this, if_true]
+    leaf ⟨[], some (.run .t2)⟩
+    fin [if_true]
+  · have : (s.st.endCount + 1 == n) = false := by simp [h0]
+    simp only [this]
+    leaf ⟨[], some (.run .done)⟩
+    fin [if_true]
+
+theorem inv_t2 (hi : Inv n E0 D0 s) (hth : s.threads[t]? = some ⟨script, some (.run .t2)⟩)
+    (hs : pstep (machine α n) s t = some s') : Inv n E0 D0 s' := by
+  prep
+  simp only [machine, step] at hs
+  cases hs
+  obtain rfl : script = [] := by simp [okThread, okFrame, okLoc] at hok; exact hok.2
+  leaf ⟨[], some (.wait (.down 0 .term) .done)⟩
+  have hat : E0 = 0 → s.obs.sinkMsg.afterTerm = 0 := fun h => by
+    rw [sinkMsg_afterTerm _ (by omega) (hO h).2.2.2.2.1]; exact (hO h).2.2.1
+  have hfl : s.obs.inFlight = 0 := by omega
+  callfin
+  case o => exact fun h => ⟨(ho h).1, (ho h).2.1, hat h, by simp [hfl, (ho h).2.2.2]⟩
+  case d => exact fun h => ⟨(hd0 h).1, by have := (hd0 h).2; omega⟩
+  all_goals first
+    | omega
+    | wfset
+    | assumption
+
+theorem inv_e0 {i e : Nat} (hi : Inv n E0 D0 s) (hth : s.threads[t]? = some ⟨script, some (.run (.e0 i e))⟩)
+    (hs : pstep (machine α n) s t = some s') : Inv n E0 D0 s' := by
+  prep
+  simp only [machine, step] at hs
+  cases hs
+  obtain rfl : script = [] := by simp [okThread, okFrame, okLoc] at hok; exact hok.2
+  leaf ⟨[], some (.run (.eLoop i 0 e))⟩
+  have hE0 : E0 ≠ 0 := by omega
+  fin [if_true]
+
+theorem inv_eLoop {i j e : Nat} (hi : Inv n E0 D0 s) (hth : s.threads[t]? = some ⟨script, some (.run (.eLoop i j e))⟩)
+    (hs : pstep (machine α n) s t = some s') : Inv n E0 D0 s' := by
+  prep
+  simp only [machine, step] at hs
+  obtain rfl : script = [] := by simp [okThread, okFrame, okLoc] at hok; exact hok.2
+  by_cases hj : j < n
+  · by_cases hc : (j != i && phAt s.st.slots j) = true
+    · rw [if_pos hj, if_pos hc] at hs
+      cases hs
+      leaf ⟨[], some (.wait (.srcUp j .term) (.eLoop i (j + 1) e))⟩
+      have hE0 : E0 ≠ 0 := by omega
+      fin [if_true]
+    · rw [if_pos hj, if_neg hc] at hs
+      cases hs
+      leaf ⟨[], some (.run (.eLoop i (j + 1) e))⟩
+      have hE0 : E0 ≠ 0 := by omega
+      fin [if_true]
+  · rw [if_neg hj] at hs
+    cases hs
+    leaf ⟨[], some (.run (.eOut e))⟩
+    have hE0 : E0 ≠ 0 := by omega
+    fin [if_true]
+
+theorem inv_eOut {e : Nat} (hi : Inv n E0 D0 s) (hth : s.threads[t]? = some ⟨script, some (.run (.eOut e))⟩)
+    (hs : pstep (machine α n) s t = some s') : Inv n E0 D0 s' := by
+  prep
+  simp only [machine, step] at hs
+  cases hs
+  obtain rfl : script = [] := by simp [okThread, okFrame, okLoc] at hok; exact hok.2
+  leaf ⟨[], some (.wait (.down 0 (.err e)) .done)⟩
+  have hE0 : E0 ≠ 0 := by omega
+  fin [if_true]
+
+end steps
+
+theorem inv_pstep {α} (n E0 D0 : Nat) (s s' : PSys St (Loc α) α α) (t : Nat) (hi : Inv n E0 D0 s)
+    (hs : pstep (machine α n) s t = some s') : Inv n E0 D0 s' := by
   cases hth : s.threads[t]? with
-  | none => simp [hth] at hs
+  | none => simp [pstep, hth] at hs
   | some th =>
-    obtain ⟨hlt, hget⟩ := List.getElem?_eq_some_iff.mp hth
-    simp only [hth] at hs
-    have hmem : th ∈ s.threads := hget ▸ List.getElem_mem hlt
-    have hok := hi.wf _ hmem
-    have e1 := fun x => cnt_set atG2 s.threads t hlt x
-    have e2 := fun x => cnt_set atT2 s.threads t hlt x
-    have e3 := fun x => cnt_set preT1 s.threads t hlt x
-    have e4 := fun x => cnt_set mayErr s.threads t hlt x
-    have e5 := fun x => cnt_set liveR s.threads t hlt x
-    have e6 := fun x => cnt_set inData s.threads t hlt x
-    simp only [hget] at e1 e2 e3 e4 e5 e6
-    obtain ⟨hwf, hpan, hg1, hg0, ht1, ht0, hx, he, hr, hf, ho⟩ := hi
-    clear hth hget hmem
-    have hdl := inData_le_liveR s.threads
-    have hO : E0 = 0 → s.st.ended = false ∧ s.obs.upTerms = 0 ∧ s.obs.afterTerm = 0 ∧ s.obs.termWhileData = false ∧
-        s.obs.errs = 0 ∧ cnt mayErr s.threads = 0 := fun h => by
-      obtain ⟨a, b, c, d⟩ := ho h; exact ⟨a, b, c, d, by omega, by omega⟩
+    have hok := hi.wf _ (List.mem_of_getElem? hth)
     obtain ⟨script, frame⟩ := th
     cases frame with
-    | none =>
-      cases script with
-      | nil => simp at hs
-      | cons i rest =>
-        simp only [] at hs
-        split at hs
-        · cases hs
-          leaf ⟨[], none⟩
-          constructor <;> simp only [] <;> first
-            | omega
-            | wfset
-            | assumption
-        · cases hs
-          cases i with
-          | subscribe k => simp [okThread, okScript] at hok
-          | sinkUp k u => simp [okThread, okScript] at hok
-          | srcGreet i =>
-            leaf ⟨rest, some (.run (.g0 i))⟩
-            constructor <;> simp only [machine, enter] <;> first
-              | omega
-              | wfset
-              | assumption
-          | srcDown i d =>
-            cases d with
-            | data a =>
-              leaf ⟨rest, some (.run (.data a))⟩
-              constructor <;> simp only [machine, enter] <;> first
-                | omega
-                | wfset
-                | assumption
-            | term =>
-              obtain rfl : rest = [] := by simpa [okThread, okScript, okFrame] using hok
-              leaf ⟨[], some (.run (.t0 i))⟩
-              constructor <;> simp only [machine, enter] <;> first
-                | omega
-                | wfset
-                | assumption
-            | err e =>
-              obtain rfl : rest = [] := by simpa [okThread, okScript, okFrame] using hok
-              leaf ⟨[], some (.run (.e0 i e))⟩
-              constructor <;> simp only [machine, enter] <;> first
-                | omega
-                | wfset
-                | assumption
+    | none => exact inv_start hi hth hs
     | some fr =>
       cases fr with
-      | wait o l =>
-        cases hs
-        cases l
-        all_goals try (exfalso; simp [okThread, okFrame, okWait] at hok; done)
-        · -- continuation `done`
-          leaf ⟨script, some (.run .done)⟩
-          by_cases hd : isDataOut o = true
-          · simp [hd] at e5 e6
-            fin [hd]
-          · simp [hd] at e5 e6
-            fin [hd]
-        · -- continuation `eLoop`
-          rename_i i j e
-          obtain rfl : script = [] := by simp [okThread, okFrame, okWait] at hok; exact hok.2
-          leaf ⟨[], some (.run (.eLoop i j e))⟩
-          by_cases hd : isDataOut o = true
-          · simp [hd] at e5 e6
-            fin [hd]
-          · simp [hd] at e5 e6
-            fin [hd]
+      | wait o l => exact inv_ret hi hth hs
       | run l =>
-        cases l
-        all_goals try (exfalso; simp [okThread, okFrame, okLoc] at hok; done)
-        case done =>
-          simp [machine, step] at hs
-          cases hs
-          leaf ⟨script, none⟩
-          fin [if_true]
-        case g0 i =>
-          simp only [machine, step, Bool.true_and] at hs
-          by_cases hen : s.st.ended = true
-          · rw [if_pos hen] at hs
-            cases hs
-            leaf ⟨script, some (.wait (.srcUp i .term) .done)⟩
-            have hE0 : E0 ≠ 0 := fun h => by simp [(hO h).1] at hen
-            fin [if_true]
-          · rw [if_neg hen] at hs
-            cases hs
-            leaf ⟨script, some (.run (.g1 i))⟩
-            fin [if_true]
-        case g1 i =>
-          simp only [machine, step] at hs
-          cases hs
-          by_cases h0 : s.st.startCount = 0
-          · have : (s.st.startCount + 1 == 1) = true := by simp [h0]
-            simp only [this, if_true]
-            leaf ⟨script, some (.run .g2)⟩
-            fin [if_true]
-          · have : (s.st.startCount + 1 == 1) = false := by simp [h0]
-            simp only [this]
-            leaf ⟨script, some (.run .done)⟩
-            fin [if_true]
-        case t0 i =>
-          simp only [machine, step] at hs
-          cases hs
-          obtain rfl : script = [] := by simp [okThread, okFrame, okLoc] at hok; exact hok.2
-          leaf ⟨[], some (.run .t1)⟩
-          fin [if_true]
-        case t1 =>
-          simp only [machine, step] at hs
-          cases hs
-          obtain rfl : script = [] := by simp [okThread, okFrame, okLoc] at hok; exact hok.2
-          by_cases h0 : s.st.endCount + 1 = n
-          · have : (s.st.endCount + 1 == n) = true := by simp [h0]
-            simp only [this, if_true]
-            leaf ⟨[], some (.run .t2)⟩
-            fin [if_true]
-          · have : (s.st.endCount + 1 == n) = false := by simp [h0]
-            simp only [this]
-            leaf ⟨[], some (.run .done)⟩
-            fin [if_true]
-        case e0 i e =>
-          simp only [machine, step] at hs
-          cases hs
-          obtain rfl : script = [] := by simp [okThread, okFrame, okLoc] at hok; exact hok.2
-          leaf ⟨[], some (.run (.eLoop i 0 e))⟩
-          have hE0 : E0 ≠ 0 := by omega
-          fin [if_true]
-        case eLoop i j e =>
-          simp only [machine, step] at hs
-          obtain rfl : script = [] := by simp [okThread, okFrame, okLoc] at hok; exact hok.2
-          by_cases hj : j < n
-          · by_cases hc : (j != i && phAt s.st.slots j) = true
-            · rw [if_pos hj, if_pos hc] at hs
-              cases hs
-              leaf ⟨[], some (.wait (.srcUp j .term) (.eLoop i (j + 1) e))⟩
-              have hE0 : E0 ≠ 0 := by omega
-              fin [if_true]
-            · rw [if_pos hj, if_neg hc] at hs
-              cases hs
-              leaf ⟨[], some (.run (.eLoop i (j + 1) e))⟩
-              have hE0 : E0 ≠ 0 := by omega
-              fin [if_true]
-          · rw [if_neg hj] at hs
-            cases hs
-            leaf ⟨[], some (.run (.eOut e))⟩
-            have hE0 : E0 ≠ 0 := by omega
-            fin [if_true]
-        case eOut e =>
-          simp only [machine, step] at hs
-          cases hs
-          obtain rfl : script = [] := by simp [okThread, okFrame, okLoc] at hok; exact hok.2
-          leaf ⟨[], some (.wait (.down 0 (.err e)) .done)⟩
-          have hE0 : E0 ≠ 0 := by omega
-          fin [if_true]
-        case g2 =>
-          simp only [machine, step] at hs
-          cases hs
-          leaf ⟨script, some (.wait (.greet 0) .done)⟩
-          have hat : E0 = 0 → s.obs.sinkMsg.afterTerm = 0 := fun h => by
-            rw [sinkMsg_afterTerm _ (by omega) (hO h).2.2.2.2.1]; exact (hO h).2.2.1
-          constructor <;> simp only [Obs.onOut, sinkMsg_greets, sinkMsg_datas, sinkMsg_terms, sinkMsg_errs,
-              sinkMsg_upTerms, sinkMsg_inFlight, sinkMsg_twd, sinkMsg_panics, sinkMsg_disposed] <;> first
-            | omega
-            | wfset
-            | assumption
-            | exact fun h => ⟨(ho h).1, (ho h).2.1, hat h, (ho h).2.2.2⟩
-        case data a =>
-          simp only [machine, step] at hs
-          cases hs
-          leaf ⟨script, some (.wait (.down 0 (.data a)) .done)⟩
-          have hat : E0 = 0 → s.obs.sinkMsg.afterTerm = 0 := fun h => by
-            rw [sinkMsg_afterTerm _ (by omega) (hO h).2.2.2.2.1]; exact (hO h).2.2.1
-          constructor <;> simp only [Obs.onOut, sinkMsg_greets, sinkMsg_datas, sinkMsg_terms, sinkMsg_errs,
-              sinkMsg_upTerms, sinkMsg_inFlight, sinkMsg_twd, sinkMsg_panics, sinkMsg_disposed] <;> first
-            | omega
-            | wfset
-            | assumption
-            | exact fun h => ⟨(ho h).1, (ho h).2.1, hat h, (ho h).2.2.2⟩
-        case t2 =>
-          simp only [machine, step] at hs
-          cases hs
-          obtain rfl : script = [] := by simp [okThread, okFrame, okLoc] at hok; exact hok.2
-          leaf ⟨[], some (.wait (.down 0 .term) .done)⟩
-          have hat : E0 = 0 → s.obs.sinkMsg.afterTerm = 0 := fun h => by
-            rw [sinkMsg_afterTerm _ (by omega) (hO h).2.2.2.2.1]; exact (hO h).2.2.1
-          have hfl : s.obs.inFlight = 0 := by omega
-          constructor <;> simp only [Obs.onOut, sinkMsg_greets, sinkMsg_datas, sinkMsg_terms, sinkMsg_errs,
-              sinkMsg_upTerms, sinkMsg_inFlight, sinkMsg_twd, sinkMsg_panics, sinkMsg_disposed] <;> first
-            | omega
-            | wfset
-            | assumption
-            | exact fun h => ⟨(ho h).1, (ho h).2.1, hat h, by simp [hfl, (ho h).2.2.2]⟩
+        cases l with
+        | done => exact inv_done hi hth hs
+        | g0 i => exact inv_g0 hi hth hs
+        | g1 i => exact inv_g1 hi hth hs
+        | g2 => exact inv_g2 hi hth hs
+        | data a => exact inv_data hi hth hs
+        | t0 i => exact inv_t0 hi hth hs
+        | t1 => exact inv_t1 hi hth hs
+        | t2 => exact inv_t2 hi hth hs
+        | e0 i e => exact inv_e0 hi hth hs
+        | eLoop i j e => exact inv_eLoop hi hth hs
+        | eOut e => exact inv_eOut hi hth hs
+        | _ => simp [okThread, okFrame, okLoc] at hok
 
 /-! ## The initial configuration -/
 
@@ -518,7 +631,7 @@ theorem nFail_nofail {α} {n : Nat} {ths : List (Th α)} (h : Members n false th
   simp [(memberScript_facts hm).2.2 rfl]
 
 theorem inv_init {α} (n : Nat) (fails : Bool) (ths : List (Th α)) (h : Members n fails ths) :
-    Inv n (nFail ths) (start n ths) := by
+    Inv n (nFail ths) (tot pend ths) (start n ths) := by
   have hm := members_mem h
   have z1 : cnt atG2 ths = 0 := cnt_eq_zero _ _ (fun th hth => by simp [atG2, (hm th hth).1, fG2])
   have z2 : cnt atT2 ths = 0 := cnt_eq_zero _ _ (fun th hth => by simp [atT2, (hm th hth).1, fT2])
@@ -536,13 +649,14 @@ theorem inv_init {α} (n : Nat) (fails : Bool) (ths : List (Th α)) (h : Members
        obtain ⟨hf, i, hs⟩ := hm th hth
        exact ⟨(memberScript_facts hs).1, by simp [hf, okFrame]⟩)
     | (intro _; simp; done)
+    | (intro _; exact ⟨rfl, by simp⟩)
 
 theorem merge_par_inv {α : Type} (n : Nat) (fails : Bool) (ths : List (Thread (Loc α) α α)) (h : Members n fails ths) :
-    ∀ s, PReach (machine α n) (start n ths) s → Inv n (nFail ths) s := by
+    ∀ s, PReach (machine α n) (start n ths) s → Inv n (nFail ths) (tot pend ths) s := by
   intro s hr
   induction hr with
   | init => exact inv_init n fails ths h
-  | step t _ hs ih => exact inv_pstep n _ _ _ t ih hs
+  | step t _ hs ih => exact inv_pstep n _ _ _ _ t ih hs
 
 /-! ## C18 (merge) -/
 
@@ -554,7 +668,7 @@ theorem merge_par_safe {α : Type} (n : Nat) (fails : Bool) (ths : List (Thread 
       s.obs.greets ≤ 1 ∧ s.obs.terms ≤ 1 ∧ (s.obs.terms = 0 ∨ s.obs.errs = 0) ∧ s.obs.errs ≤ nFail ths ∧
       s.obs.panics = 0 ∧ (fails = false → s.obs.errs = 0) := by
   intro s hr
-  obtain ⟨_, hpan, hg1, _, ht1, ht0, hx, he, _, _, _⟩ := merge_par_inv n fails ths h s hr
+  obtain ⟨_, hpan, hg1, _, ht1, ht0, hx, he, _, _, _, _⟩ := merge_par_inv n fails ths h s hr
   refine ⟨by omega, by omega, by omega, by omega, hpan, fun hf => ?_⟩
   subst hf
   have := nFail_nofail h
@@ -585,6 +699,47 @@ theorem merge_par_order {α : Type} (n : Nat) (ths : List (Thread (Loc α) α α
   obtain ⟨_, b, c, d⟩ := (merge_par_inv n false ths h s hr).o (nFail_nofail h)
   exact ⟨d, c, b⟩
 
+theorem tot_eq_zero {α} (f : α → Nat) (l : List α) (h : ∀ a ∈ l, f a = 0) : tot f l = 0 := by
+  unfold tot
+  induction l with
+  | nil => rfl
+  | cons a l ih =>
+    simp only [List.map_cons, List.sum_cons, h a (List.mem_cons_self ..)]
+    simpa using ih (fun b hb => h b (List.mem_cons_of_mem _ hb))
+
+theorem tot_congr {α} (f g : α → Nat) (l : List α) (h : ∀ a ∈ l, f a = g a) : tot f l = tot g l := by
+  unfold tot
+  induction l with
+  | nil => rfl
+  | cons a l ih =>
+    simp only [List.map_cons, List.sum_cons, h a (List.mem_cons_self ..)]
+    rw [ih (fun b hb => h b (List.mem_cons_of_mem _ hb))]
+
+/-- number of data deliveries in the members' scripts -/
+def nDataAll {α} (ths : List (Th α)) : Nat := tot (fun th => nData th.script) ths
+
+/-- C18 (merge), no failing member, count form of "no datum is lost or duplicated": no member is ever disposed, and at every
+moment (data delivered to the sink) + (data still in the scripts or handed to merge and not yet passed on) is the number of
+data in the scripts. -/
+theorem merge_par_data {α : Type} (n : Nat) (ths : List (Thread (Loc α) α α)) (h : Members n false ths) :
+    ∀ s, PReach (machine α n) (start n ths) s →
+      s.obs.disposed = [] ∧ s.obs.datas.length + tot pend s.threads = nDataAll ths := by
+  intro s hr
+  have h0 : tot pend ths = nDataAll ths :=
+    tot_congr _ _ _ (fun th hth => by simp [pend, (members_mem h th hth).1, fPend])
+  rw [← h0]
+  exact (merge_par_inv n false ths h s hr).d (nFail_nofail h)
+
+/-- … in particular, once every thread has finished, the sink has received exactly as many data as the scripts contained. -/
+theorem merge_par_data_done {α : Type} (n : Nat) (ths : List (Thread (Loc α) α α)) (h : Members n false ths) :
+    ∀ s, PReach (machine α n) (start n ths) s → (∀ th ∈ s.threads, th.script = [] ∧ th.frame = none) →
+      s.obs.datas.length = nDataAll ths := by
+  intro s hr hfin
+  have h1 := (merge_par_data n ths h s hr).2
+  have h2 : tot pend s.threads = 0 :=
+    tot_eq_zero _ _ (fun th hth => by simp [pend, (hfin th hth).1, (hfin th hth).2, nData, fPend])
+  omega
+
 /-! ## Counterexamples -/
 
 theorem twoFail_members : Members 2 true twoFail := by
@@ -603,10 +758,62 @@ theorem merge_par_two_errors :
   obtain ⟨s, h1, h2⟩ := h
   exact ⟨twoFail, twoFail_members, s, runSched_reach _ _ _ _ h1, h2⟩
 
+/-- member 0 greets; member 1 greets and delivers one datum -/
+def earlyData : List (Thread (Loc Nat) Nat Nat) :=
+  [ { script := [.srcGreet 0] }, { script := [.srcGreet 1, .srcDown 1 (.data 5)] } ]
+/-- member 0 obtains the ticket `startCount = 1` and is preempted before it greets the sink; member 1's greeting returns,
+its datum is delivered -/
+def earlyDataSched : List Nat := [0,0,0, 1,1,1,1, 1,1]
+
+/-- member 0 greets and fails; member 1 greets and delivers one datum -/
+def lateData : List (Thread (Loc Nat) Nat Nat) :=
+  [ { script := [.srcGreet 0, .srcDown 0 (.err 7)] }, { script := [.srcGreet 1, .srcDown 1 (.data 5)] } ]
+/-- member 1's data delivery has entered merge when member 0's `Error` is handled (member 1 is disposed, the sink gets `Error`);
+then member 1's delivery goes on -/
+def lateDataSched : List Nat := [0,0,0,0,0,0, 1,1,1,1, 1, 0,0,0,0,0,0,0, 1]
+
+theorem earlyData_members : Members 2 false earlyData := by
+  refine ⟨rfl, fun i hi => ?_⟩
+  have : i = 0 ∨ i = 1 := by simp [earlyData] at hi; omega
+  rcases this with rfl | rfl
+  · exact ⟨rfl, rfl, [], [], rfl, Or.inl rfl⟩
+  · exact ⟨rfl, rfl, [5], [], rfl, Or.inl rfl⟩
+
+theorem lateData_members : Members 2 true lateData := by
+  refine ⟨rfl, fun i hi => ?_⟩
+  have : i = 0 ∨ i = 1 := by simp [lateData] at hi; omega
+  rcases this with rfl | rfl
+  · exact ⟨rfl, rfl, [], [.srcDown 0 (.err 7)], rfl, Or.inr (Or.inr ⟨rfl, 7, rfl⟩)⟩
+  · exact ⟨rfl, rfl, [5], [], rfl, Or.inl rfl⟩
+
+/-- The sink can receive `Data` BEFORE its greeting (nobody fails): the member holding the ticket `startCount = 1` has not
+yet called `sink(Handshake)` when another member, whose own greeting has returned, delivers.  So "greeted exactly once as soon
+as any member's greeting has returned" is FALSE; only `greets ≤ 1` holds. -/
+theorem merge_par_data_before_greet :
+    ∃ ths, Members 2 false ths ∧ ∃ s, PReach (machine Nat 2) (start 2 ths) s ∧ s.obs.greets = 0 ∧ s.obs.datas = [5] := by
+  have h : ∃ s, runSched (machine Nat 2) (start 2 earlyData) earlyDataSched = some s ∧ s.obs.greets = 0 ∧ s.obs.datas = [5] :=
+    ⟨_, rfl, rfl, rfl⟩
+  obtain ⟨s, h1, h2⟩ := h
+  exact ⟨earlyData, earlyData_members, s, runSched_reach _ _ _ _ h1, h2⟩
+
+/-- With ONE failing member the sink can receive `Data` after the `Error` (a delivery already inside merge is not stopped):
+this is why `merge_par_order` is stated for `fails = false`. -/
+theorem merge_par_data_after_error :
+    ∃ ths, Members 2 true ths ∧ nFail ths = 1 ∧
+      ∃ s, PReach (machine Nat 2) (start 2 ths) s ∧ s.obs.errs = 1 ∧ s.obs.afterTerm = 1 ∧ s.obs.datas = [5] := by
+  have h : ∃ s, runSched (machine Nat 2) (start 2 lateData) lateDataSched = some s ∧
+      s.obs.errs = 1 ∧ s.obs.afterTerm = 1 ∧ s.obs.datas = [5] := ⟨_, rfl, rfl, rfl, rfl⟩
+  obtain ⟨s, h1, h2⟩ := h
+  exact ⟨lateData, lateData_members, rfl, s, runSched_reach _ _ _ _ h1, h2⟩
+
 end Cb.Merge
 
 #print axioms Cb.Merge.merge_par_safe
 #print axioms Cb.Merge.merge_par_safe_one
 #print axioms Cb.Merge.merge_par_safe_nofail
 #print axioms Cb.Merge.merge_par_order
+#print axioms Cb.Merge.merge_par_data
+#print axioms Cb.Merge.merge_par_data_done
 #print axioms Cb.Merge.merge_par_two_errors
+#print axioms Cb.Merge.merge_par_data_before_greet
+#print axioms Cb.Merge.merge_par_data_after_error
